@@ -345,7 +345,9 @@ int reformat_settings_msa(struct msa *msa, int rename, int unalign)
         }
         if(rename){
                 for (int i = 0 ;i < msa->numseq;i++){
-                        snprintf(msa->sequences[i]->name, 128, "SEQ%d", i+1);
+                        /* a name read from a file is allocated to its own length */
+                        MREALLOC(msa->sequences[i]->name, sizeof(char) * MSA_NAME_LEN);
+                        snprintf(msa->sequences[i]->name, MSA_NAME_LEN, "SEQ%d", i+1);
                 }
         }
         if(unalign){
